@@ -103,6 +103,19 @@ def same(real, model, script):
     return "diff"
 
 
+def part_keys(d):
+    return sorted((p[0], p[1]) for p in d[3]) if isinstance(d, list) and d and d[0] == "comp" else None
+
+
+def same_width(real, model):
+    """the C12 view of the tie: outcome class, width of the result, and the part keys when it is a comp."""
+    if real[0] != "ok" or not isinstance(model, list) or model[0] != "ok":
+        return "same" if real[0] == (model[0] if isinstance(model, list) else None) else "diff"
+    if real[3] == model[3] and part_keys(real[1]) == part_keys(model[1]):
+        return "same"
+    return "diff"
+
+
 def has_vec(d):
     if isinstance(d, list):
         if d and d[0] in ("vec", "vecw"):
@@ -232,7 +245,7 @@ def run_check(prop, tier):
     r = rng("expr")          # C01 and C12 look at the same generated population
     broken = ck.build_and_audit(["Amoco.Props.%s" % prop, "drv_expr"])
     drv = Driver("drv_expr")
-    t_budget = (150 if quick else 1500)
+    t_budget = (110 if quick else 1500)
     t0 = time.time()
     corr_broken = []
     nshrunk = [0]
@@ -240,7 +253,7 @@ def run_check(prop, tier):
     def report_oracle(kind, script, cx, action, real, model, expected, rho, decl, fails):
         """a failing input on the real code: shrink, sign, report."""
         small = script
-        if nshrunk[0] < (10 if quick else 60) and F.width(script) is not None:
+        if nshrunk[0] < (25 if quick else 100) and F.width(script) is not None:
             nshrunk[0] += 1
             try:
                 small = shrink(script, fails, rho)
@@ -343,7 +356,10 @@ def run_check(prop, tier):
                 if not ok and not v and not dirty:
                     corr_broken.append((script, cx, a, real, m, "widening"))
                 continue
-            s = same(real, m, script)
+            if want_c01:
+                s = same(real, m, script)
+            else:
+                s = same_width(real, m)
             ck.count("tie." + s)
             if s == "diff" and not v:
                 if dirty:
@@ -364,7 +380,7 @@ def run_check(prop, tier):
 
     # ---- generated ----------------------------------------------------------------------------
     n = 0
-    target = 1100 if quick else 60000
+    target = 3000 if quick else 80000
     while n < target and time.time() - t0 < t_budget:
         n += 1
         g = G.Gen(r, malformed=(r.random() < 0.03))
